@@ -40,12 +40,14 @@ Fixpoint brackets_ok (seen : list token) (ops : list op) (ts : list (Z * Z)) (ob
   | _, _, _ => true
   end.
 
-Definition check (c : case) : verdict :=
-  let '(cr, obs) := run (c_cfg c) (c_file c) (c_ops c) in
+(** [impl_fixed]: is the repair of C16-F1 expected in the implementation (which variant of
+    the model is compared).  The property predicate is the specification either way. *)
+Definition check (impl_fixed : bool) (c : case) : verdict :=
+  let '(cr, obs) := run impl_fixed (c_cfg c) (c_file c) (c_ops c) in
   {| v_corr := res_unit_eqb cr (c_created c) && list_eqb oobs_eqb obs (c_obs c);
      v_prop := run_ok (c_cfg c) (c_file c) (c_ops c) (c_created c) (c_obs c)
                && brackets_ok [] (c_ops c) (c_times c) (c_obs c);
-     v_guards := guards [(1%Z, guard_F1 (c_cfg c) (c_file c) (c_ops c))] |}.
+     v_guards := guards [(1%Z, guard_F1 (c_cfg c) (c_file c) (c_ops c) && negb impl_fixed)] |}.
 
 (* short constructors for the generated case files *)
 Definition K n k s := {| k_id := n; k_kind := k; k_size := s |}.
